@@ -51,6 +51,14 @@ def need (args : Array α) (n : Nat) : Except String Unit :=
   | "identity" => need x 0; return toArray G.identity
   | "matrix" => need x G.rep; return matToArray (G.matrix (ofArray _ x))
   | "compose" => need x (2 * G.rep); return toArray (G.composition (ofArray _ x) (ofArray _ x G.rep))
+  | "compose3l" =>
+    need x (3 * G.rep)
+    return toArray (G.composition (memoV (G.composition (ofArray _ x) (ofArray _ x G.rep))) (ofArray _ x (2 * G.rep)))
+  | "compose3r" =>
+    need x (3 * G.rep)
+    return toArray (G.composition (ofArray _ x) (memoV (G.composition (ofArray _ x G.rep) (ofArray _ x (2 * G.rep)))))
+  | "logexp" => need x G.dof; return toArray (G.log (memoV (G.exp (ofArray _ x))))
+  | "Adexp" => need x G.dof; return matToArray (G.Ad (memoV (G.exp (ofArray _ x))))
   | "inverse" => need x G.rep; return toArray (G.inverse (ofArray _ x))
   | "log" => need x G.rep; return toArray (G.log (ofArray _ x))
   | "exp" => need x G.dof; return toArray (G.exp (ofArray _ x))
@@ -116,7 +124,5 @@ def g0 (x : Array α) (i : Nat) : α := x.getD i (nat 0)
       | some r => r
       | none => runGroupOp G op x
     | none => .error s!"unknown-group {grp}"
-
-def runAudit (_op _grp : String) (_args : Array String) : String := "ERR audit-not-implemented"
 
 end Drv
